@@ -14,6 +14,18 @@
 (* the renderer emits ({i} = position in the body, {n} = case number) and  *)
 (* the GROUND TRUTH label: is it a function declared directly in the       *)
 (* module, with a visibility qualifier and a body?                         *)
+(*                                                                         *)
+(* Fragments.  An item that reaches the module through a `macro_rules!`    *)
+(* fragment (`$i:item`; also the `$b:block` body of a function) is wrapped *)
+(* in an invisible group.  The attribute / visibility / signature parsers  *)
+(* look through such a group; the scan for the end of an item treats a     *)
+(* non-empty invisible group at the START of what it scans as the whole    *)
+(* item (since a "fix:" commit - it used to run on to the next brace group *)
+(* or `;`, swallowing the following item or failing with "Read past the    *)
+(* end").  Consequently the split of a body of wrapped items is the split  *)
+(* of the body itself: the machine below is not repeated for wrapped       *)
+(* bodies; checks/c08.py replays macro-assembled twins of the bodies       *)
+(* against the same ground truth and the same prediction.                  *)
 (***************************************************************************)
 EXTENDS TLC, Sequences, Naturals, FiniteSets, SequencesExt
 
